@@ -4,14 +4,15 @@
    that the real compiler + VM compute the same observables is what the correspondence run
    of checks/c02.py establishes on generated programs (see docs/C02.md).
 
-   Not proved (named here so that nobody mistakes it for done):
-     vm_refines_ref_F0_partial -- a Gallina model of generator.go (GenerateBegin / GenerateCond /
-     GenerateShortCircuit / GenerateLet jump offsets and pops) with  run (gen e) = eval e  for the
-     closure-free fragment was planned in DESIGN.md section 2; it has NOT been written.  The
-     jump-offset arithmetic of the real generator is covered by the exhaustive + random
-     correspondence run and by the seeded-change trials only. *)
+   Compiler fragment: Model/GenF0.v is a Gallina model of generator.go + the VM step for the
+   closure-free fragment F0 (literals, variables, begin, cond, and/or, def/set, let/letseq,
+   newScope; a call is ONE instruction delegated to the reference call_expr, as the real
+   CallExprInstr generates and runs callee and arguments when it executes).  Section 9 states
+   vm_refines_ref_F0 (proved for all nestings, values and errors).  What stays outside it --
+   for loops with break/continue, closures (CreateClosure, function activation), the self tail
+   call, arrays -- is named vm_refines_ref_partial: validated by the correspondence run, not proved. *)
 From Coq Require Import ZArith Bool List.
-From ZV Require Import Model.Num Model.RefSem Proofs.RefSemProofs.
+From ZV Require Import Model.Num Model.RefSem Model.GenF0 Proofs.RefSemProofs Proofs.GenF0Proofs.
 Import ListNotations.
 Open Scope Z_scope.
 
@@ -176,6 +177,23 @@ Theorem break_never_crosses_activation : forall A e (m : M A) s r s1, no_loop_si
 Proof. exact RefSemProofs.no_loop_sig_spec. Qed.
 Print Assumptions break_never_crosses_activation.
 
+(* a break/continue that escapes an expression accepted by the compile check addresses one of the
+   loops around it in its compile unit; nothing escapes a top-level form or a call argument *)
+Theorem escaping_signal_addresses_enclosing_loop : forall n loops env e s r s',
+  cc loops e = true -> eval n env e s = (r, s') ->
+  match r with
+  | Sig (SBreak l) | Sig (SCont l) => loop_ok l loops = true
+  | _ => True
+  end.
+Proof. exact RefSemProofs.escaping_signal_addresses_enclosing_loop. Qed.
+Print Assumptions escaping_signal_addresses_enclosing_loop.
+
+Theorem toplevel_has_no_stray_signal : forall n env e s r s',
+  cc [] e = true -> eval n env e s = (r, s') ->
+  (forall l, r <> Sig (SBreak l)) /\ (forall l, r <> Sig (SCont l)).
+Proof. exact RefSemProofs.toplevel_has_no_stray_signal. Qed.
+Print Assumptions toplevel_has_no_stray_signal.
+
 (* ---- 6. integer arithmetic wraps modulo 2^64 (range and congruence from C07's NumProofs) ---- *)
 
 Theorem add_wraps : forall ap a b s,
@@ -202,7 +220,66 @@ Theorem eval_extends_store : forall n env e s r s', eval n env e s = (r, s') -> 
 Proof. exact RefSemProofs.eval_extends_store. Qed.
 Print Assumptions eval_extends_store.
 
-(* ---- 8. non-vacuity ---- *)
+(* ---- 8. the generated code of the fragment F0 refines the reference evaluator ---- *)
+
+(* whole expression: if the reference evaluator finishes on an F0 expression, the VM run on the
+   code the generator emits for it finishes (given enough steps) with the same value on top of
+   the stack or the same error signal, and the same store (hence the same trace) *)
+Theorem vm_refines_ref_F0 : forall n e env s r s',
+  f0 e = true -> eval n env e s = (r, s') -> r <> Fuel ->
+  exists k, run n (gen e) k (mkVm 0 [] env s) = (r, s').
+Proof. exact GenF0Proofs.vm_refines_ref_F0. Qed.
+Print Assumptions vm_refines_ref_F0.
+
+(* in any code context: the code of e placed at pc p, run with any stack below it, ends at
+   p + |gen e| with exactly one more value (the jump offsets of every nested cond/and/or are
+   right for sub-forms of any length; begin pops all but the last value) *)
+Theorem gen_in_context : forall n code m, (m <= n)%nat ->
+  forall e, f0 e = true -> forall p stk0 env s r s',
+    code_at code p (gen e) -> eval m env e s = (r, s') ->
+    sim n code p (p + length (gen e)) stk0 env s r s'.
+Proof. exact GenF0Proofs.gen_sim. Qed.
+Print Assumptions gen_in_context.
+
+(* the compositional layout lemmas it rests on (IHexpr = "every F0 expression is simulated") *)
+Theorem cond_layout : forall n code m, IHexpr n code m ->
+  forall arms d, forallb (fun cb => f0 (fst cb) && f0 (snd cb)) arms = true -> f0 d = true ->
+  forall p stk0 env s r s', code_at code p (gen_cond gen arms (gen d)) ->
+  ev_cond (eval m) env arms d s = (r, s') ->
+  sim n code p (p + length (gen_cond gen arms (gen d))) stk0 env s r s'.
+Proof. exact GenF0Proofs.sim_cond. Qed.
+Print Assumptions cond_layout.
+
+Theorem shortcircuit_layout : forall n code m, IHexpr n code m ->
+  forall (or : bool) es, es <> [] -> forallb f0 es = true ->
+  forall p stk0 env s r s', code_at code p (gen_sc gen or es) ->
+  (if or then ev_or (eval m) env es s else ev_and (eval m) env es s) = (r, s') ->
+  sim n code p (p + length (gen_sc gen or es)) stk0 env s r s'.
+Proof. exact GenF0Proofs.sim_sc. Qed.
+Print Assumptions shortcircuit_layout.
+
+Theorem begin_pops : forall n code m, IHexpr n code m ->
+  forall es, es <> [] -> forallb (fun x => f0 x && has_code x) es = true ->
+  forall p stk0 env s r s', code_at code p (gen_begin gen es) ->
+  ev_begin (eval m) env es s = (r, s') ->
+  sim n code p (p + length (gen_begin gen es)) stk0 env s r s'.
+Proof. exact GenF0Proofs.sim_begin. Qed.
+Print Assumptions begin_pops.
+
+(* ---- 9. non-vacuity ---- *)
+
+(* the listing of (cond false 1 (and 2 nil 3)): brn 3 jumps over [push 1; jump], the jump over the rest *)
+Example ex_gen_listing :
+  gen (ECond [(EBool false, EInt 1)] (EAnd [EInt 2; ENil; EInt 3])) =
+  [IPush (EBool false); IBranch false 3; IPush (EInt 1); IJump 10;
+   IPush (EInt 2); IDup; IBranch false 7; IPop; IPush ENil; IDup; IBranch false 3; IPop; IPush (EInt 3)].
+Proof. vm_compute. reflexivity. Qed.
+
+Example ex_gen_runs :
+  fst (run 10 (gen (ECond [(EBool false, EInt 1)] (EAnd [EInt 2; ENil; EInt 3]))) 50 (mkVm 0 [] [0%nat] (init_store 0)))
+  = Done VNil.
+Proof. vm_compute. reflexivity. Qed.
+
 
 (* (def x 1) ((fn [a] (+ a x)) 41) = 42 *)
 Example ex_call :
